@@ -63,6 +63,8 @@ func c02Run(f []string) string {
 		return c02TFlushRun(f)
 	case "tfheap":
 		return c02TFHeapRun(f)
+	case "ctxhist":
+		return c02HistRun(f)
 	case "filt", "filtl", "vis", "idx":
 		return c02FilterRun(f)
 	case "ctx":
@@ -303,6 +305,9 @@ func c02Gen(r *Rand, tier string) []string {
 		}
 		out = append(out, fmt.Sprintf("regexpipe %d %s %s %d %d", cnt, HexS(pat), HexList([][]byte{sb.Bytes()}), Pick(r, []int{1, 2, 4}), Pick(r, []int{1, 7, 1000})))
 	}
+	// one worker's context over a history of matches from several sources (round 4d; last, so that the cases of
+	// the generators above are the ones they were before)
+	out = append(out, c02HistGen(NewRand(r.U64()), tier)...)
 	return out
 }
 
@@ -318,6 +323,7 @@ func c02Stats(cases []string) map[string]int {
 	c02FilterStats(cases, st)
 	c02NamedStats(cases, st)
 	c02RxStats(cases, st)
+	c02HistStats(cases, st)
 	return st
 }
 
